@@ -75,6 +75,13 @@ Definition check_output_limits (cfg : config) (o : output) : result unit :=
 Definition add_output (cfg : config) (outs : list output) (o : output) : result (list output) :=
   let* _ := check_output_limits cfg o in Ok (outs ++ [o]).
 
+(* a sequence of requested outputs *)
+Fixpoint add_outputs (cfg : config) (outs : list output) (req : list output) : result (list output) :=
+  match req with
+  | [] => Ok outs
+  | o :: r => let* outs1 := add_output cfg outs o in add_outputs cfg outs1 r
+  end.
+
 (* build(): the fake full transaction (body + mock witnesses + auxiliary data) is measured and compared
    with max_tx_size.  Its size is an input here (it is the implementation's own full_size()). *)
 Definition build_guard (cfg : config) (full_tx_size : N) : result unit :=
